@@ -18,7 +18,7 @@ Definition sound (c : tycase) : bool :=
   match c_obs c with Accepted w => conforms (c_ty c) w | Rejected => true | Crashed => false end.
 
 Definition never_rejects_shaped (c : tycase) : bool :=
-  if shaped (c_ty c) (c_in c) then is_accepted (c_obs c) else true.
+  if wf_ty (c_ty c) && shaped (c_ty c) (c_in c) then is_accepted (c_obs c) else true.
 
 Definition compositional (c : tycase) : bool :=
   let yl := case_yload (c_oracle c) in
